@@ -414,6 +414,8 @@ def finish(pid, tier, seed, results, explanation, bounds, trusted_base, level, t
         exit_code = HARNESS_ERROR
     for r in errors[:12]:
         lines.append(f"HARNESS-ERROR {pid} {r['label']}: {str(r.get('why'))[:1500]}")
+        if os.environ.get("SYMX_DEBUG") and r.get("cex") is not None:
+            lines.append(f"    detail: {str(r.get('cex'))[:1200]}")
     if len(errors) > 12:
         lines.append(f"HARNESS-ERROR {pid} ... and {len(errors) - 12} more")
     for r in inconcl[:12]:
